@@ -16,7 +16,7 @@ IMPORTS = "DMRCases"
 
 TYPES = {"Int8": ">i1", "UInt8": ">u1", "Byte": "|u1", "Char": ">u1", "Int16": ">i2", "UInt16": ">u2", "Int32": ">i4", "UInt32": ">u4",
          "Int64": ">i8", "UInt64": ">u8", "Float32": ">f4", "Float64": ">f8", "String": None}
-ATTR_TYPES = ["Int8", "UInt8", "Byte", "Int16", "UInt16", "Int32", "UInt32", "Int64", "UInt64", "Float32", "Float64", "String"]
+ATTR_TYPES = ["Int8", "UInt8", "Byte", "Int16", "UInt16", "Int32", "UInt32", "Int64", "UInt64", "Float32", "Float64", "String", "URL"]
 SHORT = ["x", "y", "t", "lat", "lon", "time", "z", "n"]
 VARS = ["a", "b", "v", "w", "temp", "u", "sst", "k", "x", "time"]
 GROUPS = ["g1", "g2", "sub", "A", "obs"]
@@ -63,7 +63,8 @@ def gen_group(rng, depth, path, all_dims):
 
 def gen_attr(rng, used):
     for _ in range(20):
-        n = rng.choice(ANAMES)
+        # (an attribute may have the name of a variable, a group or a dimension)
+        n = rng.choice(ANAMES if rng.random() < 0.75 else VARS + GROUPS + SHORT)
         if n not in used:
             break
     used.add(n)
@@ -71,6 +72,8 @@ def gen_attr(rng, used):
     cnt = rng.choice([1, 1, 2, 3])
 
     def val():
+        if ty == "URL":
+            return rng.choice(["http://example.org/a", "https://example.org/x?y=1", "file:///tmp/z"])
         if ty == "String":
             return rng.choice(["m", "degrees north", "a b", "x", "1.5", "T", " ", "   ", "  m "])
         if ty.startswith("Float"):
@@ -189,7 +192,7 @@ def expected_vars(items, path, all_dims):
 def attr_value(a):
     n, ty, inline, values = a
     raw = ([inline] if inline is not None else []) + [v for _, v in values]
-    if ty == "String":
+    if ty in ("String", "URL"):
         vals = raw
     elif ty.startswith("Float"):
         vals = [float(x) for x in raw]
@@ -355,6 +358,33 @@ def main():
                     if isinstance(a, list) != isinstance(b, list) or len(la) != len(lb) or any(
                             type(x) is not type(y) or x != y for x, y in zip(la, lb)):
                         problems.append((fq, "attribute " + k, repr(b), repr(a)))
+        # the attributes of the dataset and of every group: their own Attribute elements, nothing else
+        def container_attrs(its, path):
+            yield path, [it[1] for it in its if it[0] == "attr"]
+            for it in its:
+                if it[0] == "group":
+                    yield from container_attrs(it[2], path + (it[1],))
+        for cpath, cattrs in container_attrs(items, ()):
+            where = "<group /%s>" % "/".join(cpath) if cpath else "<dataset>"
+            try:
+                node = ds
+                for g_ in cpath:
+                    node = node[g_]
+                got_attrs = {k: x for k, x in node.attributes.items() if k not in ("Maps", "path", "dimensions")}
+            except Exception as e:  # noqa
+                problems.append((where, "group not addressable", repr(e)[:120], ""))
+                continue
+            want_attrs = {a[0]: attr_value(a) for a in cattrs}
+            stats["container_attributes"] = stats.get("container_attributes", 0) + len(want_attrs)
+            if list(got_attrs) != list(want_attrs):
+                problems.append((where, "attribute names", list(got_attrs), list(want_attrs)))
+            else:
+                for k in want_attrs:
+                    a, b = want_attrs[k], got_attrs[k]
+                    la, lb = (a if isinstance(a, list) else [a]), (b if isinstance(b, list) else [b])
+                    if isinstance(a, list) != isinstance(b, list) or len(la) != len(lb) or any(
+                            type(x) is not type(y) or x != y for x, y in zip(la, lb)):
+                        problems.append((where, "attribute " + k, repr(b), repr(a)))
         n_parsed = len(list(walk(ds, BaseType)))
         if n_parsed != len(exp):
             problems.append(("<dataset>", "number of variables", n_parsed, len(exp)))
